@@ -62,7 +62,7 @@ fn well_formed(conv: &Beatmap) -> Option<String> {
 
 fn main() {
     let ctx = Ctx::from_env("C19");
-    ctx.rule("case = osu!standard grammar map (kinds circle / sliders / buzz / long slider / spinner; hit sounds {0,2,4,8,12}; gaps; stacked / far positions; timing presets with velocity points; format versions 14 and 7); per case: taiko, catch and mania conversion under no key mod and 1K-10K; oracle = times non-decreasing, durations >= 0, control points strictly ordered; taiko: one hit sound per object; mania: cs == key mod value else in [4,7], every x maps to a column < cs (floor(x*cs/512)), x finite and >= 0; catch: objects and sounds untouched; non-trivial = map has objects");
+    ctx.rule("case = osu!standard grammar map (kinds circle / sliders / buzz / long slider / spinner; hit sounds {0,2,4,8,12}; gaps; stacked / far positions; timing presets with velocity points; format versions 14 and 7); per case: taiko, catch and mania conversion under no key mod and 1K-10K; oracle = times non-decreasing, durations >= 0, control points strictly ordered; taiko: one hit sound per object, and the (time, kind, sound) list equals the single-object converts merged stably by time; mania: cs == key mod value else in [4,7], every x maps to a column < cs (floor(x*cs/512)), x finite and >= 0; catch: objects and sounds untouched; non-trivial = map has objects");
 
     // quick: N <= 3 over the 48-symbol alphabet; thorough: N <= 3 over the 240-symbol alphabet and N <= 4 over the 48-symbol one
     use vh::gen::DiffPreset as DP;
@@ -105,6 +105,25 @@ fn main() {
                 if t.hit_sounds.len() != t.hit_objects.len() {
                     l.violation("taiko_sounds", || ctxs(format!("taiko convert: {} objects but {} hit sounds", t.hit_objects.len(), t.hit_sounds.len())));
                     return;
+                }
+                // every hit keeps the sound of the object it was made from: the taiko conversion works object by object, so the
+                // (time, sound) pairs of the whole convert are those of the single-object converts, merged stably by time
+                {
+                    let mut expected: Vec<(f64, bool, u8)> = Vec::new();
+                    for i in 0..map.hit_objects.len() {
+                        let mut single = map.clone();
+                        single.hit_objects = vec![map.hit_objects[i].clone()];
+                        single.hit_sounds = vec![map.hit_sounds[i]];
+                        let ts = single.convert(GameMode::Taiko, &ModSpec::Bits(0).build(GameMode::Taiko)).expect("convertible");
+                        expected.extend(ts.hit_objects.iter().zip(&ts.hit_sounds).map(|(h, s)| (h.start_time, h.is_circle(), u8::from(*s))));
+                    }
+                    expected.sort_by(|a, b| a.0.total_cmp(&b.0));
+                    let got: Vec<(f64, bool, u8)> = t.hit_objects.iter().zip(&t.hit_sounds).map(|(h, s)| (h.start_time, h.is_circle(), u8::from(*s))).collect();
+                    l.checked(1);
+                    if got != expected {
+                        l.violation("taiko_sound_pairing", || ctxs(format!("taiko convert: (start time, is hit, sound) of the whole map differs from the single-object converts merged stably by time\n whole map : {got:?}\n per object: {expected:?}")));
+                        return;
+                    }
                 }
                 // catch
                 let c = map.clone().convert(GameMode::Catch, &ModSpec::Bits(0).build(GameMode::Catch)).expect("convertible");
